@@ -225,3 +225,61 @@ func (r *run) runProducerOnly() {
 		r.out.Scenario = map[string]any{"property": "C08", "options": opt, "batches": hp.nBatches, "overlimit": over, "last_input_otlp_json": lastJSON}
 	}
 }
+
+// denseBatch is a batch of n items that all carry related data (attributes,
+// an event and a link; an attribute; a data point with an attribute and an
+// exemplar), used for "marathon" streams whose cumulative number of
+// id-bearing parents exceeds the 16-bit id range although every single batch
+// is far below it: per-batch counters that are not reset show only there.
+func denseBatch(signal string, n, seq int) *batchIn {
+	b := &batchIn{signal: signal, kind: "dense", items: n}
+	switch signal {
+	case "traces":
+		b.td = ptrace.NewTraces()
+		rs := b.td.ResourceSpans().AppendEmpty()
+		rs.Resource().Attributes().PutStr("service.name", "marathon")
+		ss := rs.ScopeSpans().AppendEmpty().Spans()
+		ss.EnsureCapacity(n)
+		for i := 0; i < n; i++ {
+			sp := ss.AppendEmpty()
+			sp.SetName("op")
+			sp.SetSpanID([8]byte{byte(i), byte(i >> 8), byte(seq), 1})
+			sp.Attributes().PutInt("i", int64(i%7))
+			ev := sp.Events().AppendEmpty()
+			ev.SetName("e")
+			ev.Attributes().PutInt("k", int64(i%3))
+			ln := sp.Links().AppendEmpty()
+			ln.SetSpanID([8]byte{1})
+			ln.Attributes().PutStr("l", "x")
+		}
+	case "logs":
+		b.ld = plog.NewLogs()
+		rl := b.ld.ResourceLogs().AppendEmpty()
+		rl.Resource().Attributes().PutStr("service.name", "marathon")
+		ls := rl.ScopeLogs().AppendEmpty().LogRecords()
+		ls.EnsureCapacity(n)
+		for i := 0; i < n; i++ {
+			lr := ls.AppendEmpty()
+			lr.Body().SetStr("b")
+			lr.SetTimestamp(1)
+			lr.Attributes().PutInt("i", int64(i%7))
+		}
+	default:
+		b.md = pmetric.NewMetrics()
+		rm := b.md.ResourceMetrics().AppendEmpty()
+		rm.Resource().Attributes().PutStr("service.name", "marathon")
+		ms := rm.ScopeMetrics().AppendEmpty().Metrics()
+		ms.EnsureCapacity(n)
+		for i := 0; i < n; i++ {
+			m := ms.AppendEmpty()
+			m.SetName("m")
+			dp := m.SetEmptyGauge().DataPoints().AppendEmpty()
+			dp.SetIntValue(int64(i % 5))
+			dp.Attributes().PutInt("i", int64(i%7))
+			ex := dp.Exemplars().AppendEmpty()
+			ex.SetIntValue(1)
+			ex.FilteredAttributes().PutStr("x", "y")
+		}
+	}
+	return b
+}
